@@ -1,7 +1,7 @@
 (* C10 `@` and `~` are substituted everywhere; all other user tokens pass through. *)
 From Coq Require Import List String Ascii Bool.
 From O2o.Model Require Import Tok Syn Attr Ast Lookup Expand.
-From O2o.Lemmas Require Import Subst.
+From O2o.Lemmas Require Import Subst SubstClean.
 Import ListNotations.
 
 (* on the flattened token sequence (groups = open/close markers, every depth, every delimiter),
@@ -35,6 +35,20 @@ Theorem C10_quote_action : forall action post c,
                  end)) (flatten action).
 Proof. exact quote_action_flatten. Qed.
 Print Assumptions C10_quote_action.
+
+(* context-free: what stands before or after a marker plays no role (`for x in @.items`, `n @ ..`) *)
+Theorem C10_context_free : forall at_ tilde a b,
+    subst at_ tilde (a ++ b) = subst at_ tilde a ++ subst at_ tilde b.
+Proof. exact subst_app. Qed.
+Print Assumptions C10_context_free.
+
+(* total: no marker is left in a rendered member expression *)
+Theorem C10_no_marker_left : forall action post c,
+    marker_free (flatten (match post with Some p => p | None => [] end)) = true ->
+    marker_free (flatten (c_dst c)) = true ->
+    marker_free (flatten (quote_action action post c)) = true.
+Proof. exact quote_action_removes_markers. Qed.
+Print Assumptions C10_no_marker_left.
 
 Theorem C10_sites : sites_statement.
 Proof. exact sites_proof. Qed.
